@@ -1,5 +1,5 @@
 """C18 – parsing is the inverse of printing for every well-formed module."""
-import hashlib
+import hashlib, re
 from .world import *
 from .. import core
 
@@ -161,8 +161,10 @@ def semi_module(rng):
             out.append('%stype %s%s' % ('pub ' if pub else '', name, rng.choice([';', ' ;', '  ;', ' {}', '{ }', ' {\n}'])))
             defs.append(type_def(pub, name, at, []))
         else:
-            out.append('%stype %s { a: u32 }' % ('pub ' if pub else '', name))
-            defs.append(type_def(pub, name, at, [field(False, 'a', ty_id('u32'), [])]))
+            # type names may carry (nested) generic arguments: for pyxis `SharedPtr<Vec<Item>>` is ONE name
+            gname = rng.choice(['u32', 'SharedPtr<Item>', 'SharedPtr<Vec<Item>>', 'Map<Key<A>>', 'Array<Array<Array<u8>>>'])
+            out.append('%stype %s { a: %s, b: *mut %s }' % ('pub ' if pub else '', name, gname, gname))
+            defs.append(type_def(pub, name, at, [field(False, 'a', ty_id(gname), []), field(False, 'b', ty_mptr(ty_id(gname)), [])]))
     # the braced form of a backend block accepts its two parts in either order (the Lean printer writes the prologue first)
     bes = []
     for k in range(rng.choice([0, 1, 1, 2])):
@@ -206,6 +208,17 @@ def judge_all(cases, impl, model, tier):
         text, mod = semi_module(rng)
         c2 = case('semi%d#0' % i, 4, [tmodule('m.pyxis', text)])
         second.append(c2); origin[c2[1]] = (mod, 'render')
+    # an impossible token (`$`) spliced between two tokens of a hand-rendered text: the parse error must point AT it
+    junkpos = {}
+    for i in range(max(20, len(cases) // 20)):
+        text, mod = semi_module(rng)
+        ls = text.split('\n')
+        cand = [(li, m_.start()) for li, l_ in enumerate(ls) if not l_.startswith('///') and '"' not in l_ for m_ in re.finditer(r' ', l_)]
+        if not cand: continue
+        li, col = rng.choice(cand)
+        ls[li] = ls[li][:col] + ' $ ' + ls[li][col + 1:]
+        c2 = case('junkpos%d#0' % i, 4, [tmodule('m.pyxis', '\n'.join(ls))])
+        second.append(c2); origin[c2[1]] = (None, 'malformed'); junkpos[c2[1]] = (li + 1, col + 1)
     lines = [sexp.dump(c2) for c2 in second]
     impl2 = core.run_harness(lines, ['o1'], jobs=12)
     model2 = core.run_model(lines, ['o1'], jobs=12)
@@ -233,6 +246,10 @@ def judge_all(cases, impl, model, tier):
                 nlines = c2[4][1][2].count('\n') + 1
                 if not (1 <= r[2] <= nlines + 1):
                     fs.append(Finding('O', 'C18/error-position-outside-text', cid, dump(r)))
+                if cid in junkpos and (r[2], r[3]) != junkpos[cid]:
+                    fs.append(Finding('O', 'C18/error-position-not-at-the-offending-token', cid, 'the `$` is at line %d, column %d (0-based); reported %d:%d' % (junkpos[cid] + (r[2], r[3]))))
+            elif cid in junkpos:
+                fs.append(Finding('O', 'C18/impossible-token-accepted', cid, dump(r)[:120]))
         if io != mo:
             if tag(io[1]) == 'perr' and tag(mo[1]) == 'perr':
                 # both reject; the exact position syn attaches to an error is not part of the property
